@@ -3,6 +3,7 @@ package rules
 import (
 	"fmt"
 	"strings"
+	"verifcheck/internal/core"
 
 	"golang.org/x/tools/go/ssa"
 
@@ -22,9 +23,9 @@ func init() {
 		}
 	}
 	Register(&Spec{
-		ID: "C04",
+		ID:          "C04",
 		Explanation: "Decides three necessary conditions of write/read-back agreement: (R1) for every width the struct getter and setter and every typed list At/Set pair use the same guard with the same size and the segment accessor of that same width (table of 4+1 struct pairs and 11 list pairs, compared with the schema width table), and the setters have their confirmed normal forms; (R2) alloc is the only function that lengthens a segment, hands out the old length as the address of the new object, extends by the padded size under a checked address computation and zero-fills the new region; (R3) the four framers agree on the header: size from streamHeaderSize, segment count minus one in word 0, each segment's length in words at 4+4i, and readers take exactly those fields. Does NOT decide round-trip equality, non-interference between fields or independence of chunking.",
-		Run: runC04,
+		Run:         runC04,
 	})
 }
 
@@ -188,6 +189,7 @@ func ruleAllocLemma(ctx *Ctx, rule string) {
 	report(okEnd, "new end is old length + padded size, overflow-checked", "end, ok := address(len(s.data)).addSize(sz.padToWord())", "the end of the allocation is not computed as addSize(len(s.data), padToWord(sz)): objects can overlap or be misaligned")
 	// (b) returned address is the old length; (c) data extended to end; (d) zero fill of data[len:end]
 	retOK, extendOK, zeroOK, capOK := false, false, false, false
+	zeroCond := ""
 	for _, a := range as {
 		if a.Callee == "capnp.hasCapacity" && a.Args[1] == "padToWord(p1)" {
 			capOK = true
@@ -203,7 +205,7 @@ func ruleAllocLemma(ctx *Ctx, rule string) {
 					}
 				}
 			case *ssa.Store:
-				if fa, ok := x.Addr.(*ssa.FieldAddr); ok && ssaq.FieldVar(fa) != nil && ssaq.FieldVar(fa).Name() == "data" {
+				if fa, ok := x.Addr.(*ssa.FieldAddr); ok && ssaq.FieldVar(fa) != nil && core.FieldName(ssaq.FieldVar(fa)) == "data" {
 					if s := ssaq.RenderValue(f, x.Val); s == "phi.data[:addSize(address(len(phi.data)), padToWord(p1))#0]" {
 						extendOK = true
 					}
@@ -211,7 +213,27 @@ func ruleAllocLemma(ctx *Ctx, rule string) {
 				if ia, ok := x.Addr.(*ssa.IndexAddr); ok {
 					if k, isC := ssaq.ConstInt(x.Val); isC && k == 0 {
 						if s := ssaq.RenderValue(f, ia.X); s == "phi.data[len(phi.data):addSize(address(len(phi.data)), padToWord(p1))#0]" {
+							// ... on every path to the success return: the only conditions the
+							// store may depend on, beyond those of the success return itself,
+							// are the loop's own bound tests
 							zeroOK = true
+							for _, b2 := range f.Blocks {
+								rt, ok := b2.Instrs[len(b2.Instrs)-1].(*ssa.Return)
+								if !ok || len(rt.Results) != 3 || !ssaq.IsNilConst(rt.Results[2]) {
+									continue
+								}
+								// each success return separately: an early success return skips the loop
+								retAtoms := map[string]bool{}
+								for _, a := range ssaq.DomAtoms(rt) {
+									retAtoms[a] = true
+								}
+								for _, a := range ssaq.DomAtoms(x) {
+									if !retAtoms[a] && !strings.Contains(a, "< len(") {
+										zeroOK = false
+										zeroCond = a
+									}
+								}
+							}
 						}
 					}
 				}
@@ -221,7 +243,7 @@ func ruleAllocLemma(ctx *Ctx, rule string) {
 	report(capOK, "uses the preferred segment only if it has capacity for the padded size", "hasCapacity(s.data, sz.padToWord()) decides between s and a new segment", "alloc no longer tests the capacity of the preferred segment for the padded size: the extension could exceed the capacity (panic) or spill into bytes the arena did not hand out")
 	report(retOK, "returns the old length as the object's address", "addr = address(len(s.data)) read before the extension", "the address returned is not the segment's old length: the new object overlaps existing ones")
 	report(extendOK, "extends the segment exactly to the new end", "s.data = s.data[:end]", "the segment is not extended to the computed end")
-	report(zeroOK, "zero-fills the new region", "every byte of s.data[len:end] is set to 0", "the newly handed-out region is not zeroed: recycled arena memory shows through as field values and as non-null pointers")
+	report(zeroOK, "zero-fills the new region", "every byte of s.data[len:end] is set to 0", "the newly handed-out region is not zeroed on every path (extra condition: "+zeroCond+"): recycled arena memory shows through as field values and as non-null pointers")
 }
 
 var framingSpecs = []anchorSpec{
